@@ -30,7 +30,7 @@ Definition ainv (s : st) (a : nat) : Prop :=
           (rel (Bk s b) = false -> ~ In b (ung s) /\ ~ In b (giv s))
   | E4 => (1 <= b)%nat /\ owner (Bk s b) = a /\ unp (Bk s b) = true /\ (rel (Bk s b) = true -> In b (giv s)) /\
           (rel (Bk s b) = false -> ~ In b (giv s))
-  | K2 => unp (Bk s w) = false /\ ~ In w (q s) /\ ~ In w (giv s) /\ ~ In w (pre s)
+  | K2 => (1 <= w)%nat /\ unp (Bk s w) = false /\ ~ In w (q s) /\ ~ In w (giv s) /\ ~ In w (pre s)
   | K3 | K4 => unp (Bk s w) = true
   end.
 
@@ -39,6 +39,8 @@ Definition binv (s : st) (b : nat) : Prop :=
   (tok k = true -> unp k = true) /\
   (reason k = Some RU -> unp k = true) /\
   (In b (giv s) -> unp k = true) /\ (In b (ung s) -> unp k = false) /\ (In b (pre s) -> unp k = true /\ ~ In b (giv s)) /\
+  (In b (pre s) -> apc (A s (owner k)) = W2 /\ ab (A s (owner k)) = b) /\
+  ((1 <= b < nextb s)%nat -> unp k = false -> ~ In b (ung s) -> apc (A s (owner k)) = W2 /\ ab (A s (owner k)) = b) /\
   (rel k = true -> In b (ung s) \/ In b (giv s)) /\
   (In b (q s) -> unp k = false) /\
   ((nextb s <= b)%nat -> unp k = false /\ rel k = false /\ tok k = false /\ reason k = None /\ ~ In b (ung s) /\ ~ In b (giv s) /\ ~ In b (pre s)).
@@ -47,8 +49,9 @@ Definition ginv (s : st) : Prop :=
   cnt s = ini s + uposts s - succ s - nl (ung s) - nl (giv s) - nl (owe s) /\
   nl (hand s) + nl (pre s) <= nl (ung s) /\
   0 <= cnt s + nl (ung s) - nl (hand s) - nl (pre s) /\
+  cnt s + nl (ung s) - nl (hand s) - nl (pre s) = Z.max (cnt s) 0 /\
   NoDup (ung s) /\ NoDup (giv s) /\ NoDup (pre s) /\ NoDup (hand s) /\ NoDup (owe s) /\ NoDup (q s) /\
-  (1 <= nextb s)%nat /\ (forall b, In b (q s) -> (b < nextb s)%nat) /\ 0 <= ini s.
+  (1 <= nextb s)%nat /\ (forall b, In b (q s) -> (1 <= b < nextb s)%nat) /\ 0 <= ini s.
 
 Record Inv (s : st) : Prop := {
   IA : forall a, ainv s a; IB : forall b, binv s b; IG : ginv s;
@@ -85,7 +88,7 @@ Lemma inv_init i : 0 <= i -> Inv (init i).
 Proof.
   intros Hi. constructor.
   - intro a. unfold ainv; cbn. repeat split; auto; try lia; try tauto; try (intros [H|H]; discriminate); try (intros [H _]; discriminate).
-  - intro b. unfold binv; cbn. repeat split; intros; try discriminate; try tauto; auto.
-  - unfold ginv, nl; cbn. repeat split; try constructor; try lia; try (intros b []).
+  - intro b. unfold binv; cbn. repeat split; intros; try discriminate; try tauto; auto; try lia.
+  - unfold ginv, nl; cbn. repeat split; try constructor; try lia; try (intros b []); try tauto.
   - cbn. intros; discriminate.
 Qed.
